@@ -28,7 +28,7 @@ W = 'circus.watcher:Watcher.'
 
 
 def check(run, ctx):
-    run.each(ctx, [r1, r2, r3, r4])
+    run.each(ctx, [r1, r2, r3, r4, r5])
 
 
 def _sorted_call(fnode):
@@ -260,3 +260,12 @@ def r4(run, ctx):
     mw = ctx.fn(A + 'manage_watchers')
     run.check('R4', bool(mw.synchronized), 'the periodic check competes for the same slot', mw,
               mw.node)
+
+
+def r5(run, ctx):
+    from rules import c10
+    run.share(ctx, c10.r1, 'R1', 'R5', 'the slot held by a paced start sequence cannot be taken '
+              'or freed by somebody else (shared with C10 R1, the discipline of the synchronized '
+              'wrapper): a refused periodic check that frees the slot lets the next check spawn '
+              'into the middle of the sequence - spawns closer together than warmup_delay, more '
+              'than numprocesses workers')
